@@ -234,10 +234,17 @@ def statement(rng, sids, with_sid=True):
           "Resource": rng.choice(["*", "arn:aws:s3:::b/*", ["arn:aws:s3:::a", "arn:aws:s3:::b"]])}
     if with_sid:
         st = {"Sid": sids.next(), **st}
+    if rng.random() < 0.2:
+        # the negated elements: a document is a document whatever its statements are made of
+        st.pop("Action")
+        st["NotAction"] = rng.choice(["iam:*", ["s3:Delete*", "s3:Put*"]])
+    if rng.random() < 0.15:
+        st.pop("Resource")
+        st["NotResource"] = rng.choice(["arn:aws:s3:::keep/*", ["arn:aws:s3:::a", "arn:aws:s3:::b"]])
     if rng.random() < 0.4:
         st["Condition"] = copy.deepcopy(rng.choice(CONDS))
     if rng.random() < 0.2:
-        st["Principal"] = rng.choice(["*", {"AWS": "arn:aws:iam::123456789012:root"}, {"Service": ["ec2.amazonaws.com"]}])
+        st[rng.choice(["Principal", "Principal", "NotPrincipal"])] = rng.choice(["*", {"AWS": "arn:aws:iam::123456789012:root"}, {"Service": ["ec2.amazonaws.com"]}])
     return st
 
 
